@@ -88,8 +88,10 @@ Proof. exact (fun cfg gram s WF G => parse_outcome_total cfg gram G s WF). Qed.
 Definition nonames : text -> option Z := fun _ => None.
 
 (* 1 + 2 : three tokens *)
-Example lex_sum : lex (default_cfg nonames) [49; 32; 43; 32; 50]%Z =
-  ([mkTok K_NUMBER 0 1 (VInt 1); mkTok [79; 80; 95; 68]%Z 2 1 (VText [43]%Z); mkTok K_NUMBER 4 1 (VInt 2)], EndOk).
+Example lex_sum :
+  let '(toks, e) := lex (default_cfg nonames) [49; 32; 43; 32; 50]%Z in
+  (map (fun t => (tk_pos t, tk_len t, tk_val t)) toks, e) =
+  ([(0, 1, VInt 1); (2, 1, VText [43]%Z); (4, 1, VInt 2)]%nat, EndOk).
 Proof. vm_compute. reflexivity. Qed.
 
 (* '\xzz' : a lexical error at the position of the string token *)
